@@ -23,28 +23,22 @@ func mustDeref(t types.Type) types.Type {
 
 var tokenEQL = token.EQL
 
-// packages whose init must never be interpreted (runtime internals, OS, heavy or stubbed libs).
+// initDenied: package initialisers are interpreted only for the repository's own packages
+// (module paths lunar/...), a short list of pure std packages and a few pure third-party
+// libraries. Everything else is never initialised; reading one of its globals fails closed
+// unless listed in benignGlobal.
 func initDenied(path string) bool {
+	if strings.HasPrefix(path, "lunar/") {
+		return false
+	}
+	if initAllowedStd[path] {
+		return false
+	}
 	switch path {
-	case "runtime", "os", "syscall", "sync", "sync/atomic", "time", "reflect", "unsafe", "net", "net/http",
-		"os/signal", "os/exec", "os/user", "log", "testing", "flag", "crypto/rand", "math/rand", "math/rand/v2",
-		"encoding/json", "encoding/gob", "unicode", "regexp", "regexp/syntax", "fmt", "context", "io/fs", "path/filepath",
-		"internal/godebug", "internal/poll", "internal/oserror", "internal/testlog", "internal/bisect", "iter",
-		"hash/crc32", "compress/flate", "compress/gzip", "mime", "html", "text/template", "html/template", "encoding/base64",
-		"encoding/hex", "encoding/binary", "strconv", "strings", "bytes", "bufio", "sort", "slices", "maps", "math", "math/bits", "math/big",
-		"unicode/utf8", "unicode/utf16", "io", "errors", "internal/reflectlite", "container/heap", "container/list":
-		return !initAllowedStd[path]
+	case "github.com/valyala/fastjson", "github.com/samber/lo", "github.com/valyala/fastjson/fastfloat":
+		return false
 	}
-	for _, p := range []string{"runtime/", "internal/", "net/", "crypto/", "vendor/", "golang.org/x/sys", "golang.org/x/net",
-		"github.com/rs/zerolog", "go.opentelemetry.io", "github.com/prometheus", "google.golang.org", "github.com/go-playground",
-		"gopkg.in/yaml", "github.com/goccy", "github.com/alicebob", "github.com/redis", "github.com/stretchr", "github.com/go-redis",
-		"github.com/negasus/haproxy-spoe-go/agent", "github.com/sirupsen", "github.com/google/uuid", "github.com/fsnotify",
-		"github.com/pkoukk", "github.com/dlclark", "golang.org/x/text", "golang.org/x/crypto", "github.com/aavaz-ai"} {
-		if strings.HasPrefix(path, p) {
-			return true
-		}
-	}
-	return false
+	return true
 }
 
 // std packages whose init is cheap, pure and needed (error variables etc.).
